@@ -48,6 +48,8 @@ Definition ex_final : list label := [ Tick 1; FlushShard 1 200; FlushShard 0 200
 (* the two runs, evaluated once; every fact below is a projection computed by vm_compute *)
 Definition ex_s : option state := run (step ex_cfg) (init ex_cfg) ex_ls.
 Definition ex_s' : option state := ex_s ≫= λ s, run (step ex_cfg) s ex_final.
+(* conversion must unfold these names rather than start evaluating the runs *)
+Local Strategy expand [ex_s ex_s'].
 
 Example ex_quiet : (λ s, (st_inflight s, st_queue s)) <$> ex_s = Some ([], [[]; []; []]).
 Proof. vm_compute. reflexivity. Qed.
@@ -111,4 +113,71 @@ Proof.
   destruct C01_example_run as (s & s' & Hr & Hq & Hr' & Hff & Hfc & _).
   exists s, s'. split; [exact Hr|]. split; [exact Hr'|].
   apply (exact_at_quiescence ex_cfg ex_ls s ex_final s' 1); [discriminate|exact Hr|exact Hq|exact Hr'|exact Hff|exact Hfc].
+Qed.
+
+(* ---------------------------------------------------------------------------------------- *)
+(* The configured pipeline (Model/PipelineBounded.v): 2 parsers, 3 shards, queue capacity 1, and
+   the same batches with capacity 0 (rendezvous).  Parser 1 is blocked behind the full queue of
+   shard 2 until worker 2 merges; a flush command is handed over while splits are still held. *)
+From GS Require Import Model.PipelineBounded Proofs.PipelineBounded.
+
+Definition ex_bc (q : nat) : bconfig := MkBCfg ex_cfg 2 q.
+Definition ex_bls1 : list blabel :=
+  [ BParse 0 batch1;     (* parser 0 holds (0,c) (1,b) (2,a) *)
+    BParse 1 batch2;     (* parser 1 holds (1,b') (2,a'd) *)
+    BEnq 0;              (* shard 0 <- c *)
+    BEnq 1;              (* shard 1 <- b' : parser 0's next split now waits for room in queue 1 *)
+    BTick 0; BCmd 0;     (* worker 0 takes the command with its queue non-empty *)
+    BMerge 1;            (* room in queue 1 *)
+    BEnq 0;              (* shard 1 <- b *)
+    BExec 0 100;         (* reports nothing: c is still queued *)
+    BEnq 1;              (* shard 2 <- a'd *)
+    BCmd 1; BCmd 2; BExec 2 100; BExec 1 100;
+    BMerge 2; BEnq 0; BMerge 0; BMerge 1; BMerge 2 ].
+Definition ex_bfinal : list blabel := [ BTick 1; BCmd 0; BCmd 1; BExec 1 200; BCmd 2; BExec 0 200; BExec 2 200 ].
+Definition ex_b1 : option bstate := run (bstep (ex_bc 1)) (binit (ex_bc 1)) ex_bls1.
+Definition ex_b1' : option bstate := ex_b1 ≫= λ b, run (bstep (ex_bc 1)) b ex_bfinal.
+Local Strategy expand [ex_b1 ex_b1'].
+
+Example ex_b1_quiet : (λ b, (bs_pending b, bs_queue b, bs_busy b)) <$> ex_b1 = Some ([[]; []], [[]; []; []], [false; false; false]).
+Proof. vm_compute. reflexivity. Qed.
+Example ex_b1_complete : (λ b, (bs_flush b, bs_busy b)) <$> ex_b1' = Some (Some (1, 3), [false; false; false]).
+Proof. vm_compute. reflexivity. Qed.
+Example ex_b1_counter_a :
+  (λ b, (λ x : nat * nat * mmap, (x.1, counter_at x.2 ka)) <$> bs_out b) <$> ex_b1'
+  = Some [(0, 0, 0%Z); (0, 2, 0%Z); (0, 1, 0%Z); (1, 1, 0%Z); (1, 0, 0%Z); (1, 2, 7%Z)].
+Proof. vm_compute. reflexivity. Qed.
+
+(* capacity 0: every send is a rendezvous with a worker that is not executing a command *)
+Definition ex_bls0 : list blabel :=
+  [ BParse 0 batch1; BParse 1 batch2; BRdv 0; BTick 0; BCmd 0; BRdv 1; BRdv 0; BCmd 1; BExec 0 100;
+    BCmd 2; BExec 2 100; BRdv 0; BExec 1 100; BRdv 1 ].
+Example ex_b0_run :
+  (λ b, (bs_pending b, bs_queue b, (λ m, counter_at m ka) <$> bs_aggr b)) <$> run (bstep (ex_bc 0)) (binit (ex_bc 0)) ex_bls0
+  = Some ([[]; []], [[]; []; []], [0%Z; 0%Z; 7%Z]).
+Proof. vm_compute. reflexivity. Qed.
+
+(* the hypotheses of C01_bounded_exact_at_quiescence hold on the capacity-1 run *)
+Example C01_bounded_example :
+  ∃ b b', run (bstep (ex_bc 1)) (binit (ex_bc 1)) ex_bls1 = Some b
+          ∧ bquiescent (ex_bc 1) b
+          ∧ run (bstep (ex_bc 1)) b ex_bfinal = Some b'
+          ∧ bflush_complete (ex_bc 1) 1 b'
+          ∧ ∀ k, total dp_cnt (bs_input b) k = total cnt ((λ x, x.2) <$> bs_out b') k.
+Proof.
+  pose proof ex_b1_quiet as Hq. pose proof ex_b1_complete as Hc. unfold ex_b1' in Hc.
+  destruct ex_b1 as [b|] eqn:Eb; [|discriminate Hq]. cbn [mbind option_bind] in Hc.
+  destruct (run (bstep (ex_bc 1)) b ex_bfinal) as [b'|] eqn:Er; [|discriminate Hc].
+  cbn [fmap option_fmap option_map] in Hq, Hc. injection Hq as Hq1 Hq2 Hq3. injection Hc as Hc1 Hc2.
+  unfold ex_b1 in Eb.
+  assert (HQ : bquiescent (ex_bc 1) b).
+  { clear Eb Er. split.
+    - rewrite Hq1. intros l Hl. repeat (apply elem_of_cons in Hl as [->|Hl]; [reflexivity|]). apply elem_of_nil in Hl. destruct Hl.
+    - rewrite Hq2. intros l Hl. repeat (apply elem_of_cons in Hl as [->|Hl]; [reflexivity|]). apply elem_of_nil in Hl. destruct Hl. }
+  assert (HC : bflush_complete (ex_bc 1) 1 b').
+  { clear Eb Er. exists 3. split; [exact Hc1|]. split; [cbn; lia|]. rewrite Hc2. intros x Hx.
+    repeat (apply elem_of_cons in Hx as [->|Hx]; [reflexivity|]). apply elem_of_nil in Hx. destruct Hx. }
+  exists b, b'. split; [exact Eb|]. split; [exact HQ|]. split; [exact Er|]. split; [exact HC|].
+  apply (bounded_exact_at_quiescence (ex_bc 1) ex_bls1 b ex_bfinal b' 1); [discriminate|exact Eb|exact HQ|exact Er| |exact HC].
+  exists [], [BCmd 0; BCmd 1; BExec 1 200; BCmd 2; BExec 0 200; BExec 2 200]. split; [reflexivity|]. split; repeat constructor.
 Qed.
